@@ -7,7 +7,7 @@ import lib
 from props import fsobs
 
 ID = 'C12'
-GEN_FILES = ['T_files_p8', 'T_files_build']
+GEN_FILES = ['T_files_p8', 'T_files_build', 'T_p8scii']
 COQ_PROPERTY = 'theories/Properties/C12.vo'
 COQ_EXTRA = []
 MODEL = ('ExC12', 'c12_main.ml')
